@@ -105,7 +105,7 @@ def seeded_table():
         if sid in SEED_DEPENDENT:
             check += " (detection was seed dependent; strengthened: %s)" % SEED_DEPENDENT[sid]
         if m.get("neutralised_by"):
-            check = "DETECTED before the F01b repair; **neutralised by it**: on the current tree the demonstration passes with the change (no longer property-breaking)"
+            check = "DETECTED before a later repair of /repo; **neutralised by it**: " + esc(m["neutralised_by"])[:330]
         if m.get("outside_properties"):
             check += " - **outside the listed properties**: " + esc(m["outside_properties"])[:400]
         by = esc(r.get("by", ""))[:150]
